@@ -87,6 +87,65 @@ def option_unwrap_or(I, w, ci, args):
     return out
 
 
+def option_map_or(I, w, ci, args):
+    """Option::map_or(self, default, f)"""
+    out = []
+    for v in I.split_value(args[0], OPTION):
+        if v[0] != 'adt':
+            return None
+        if v[2] == 0:
+            out.append((w, args[1]))
+        else:
+            r = I.call_closure(w, ci.depth, args[2], [v[3][0]])
+            if r is None:
+                return None
+            out.extend(r)
+    return out
+
+
+def option_map_or_else(I, w, ci, args):
+    """Option::map_or_else(self, default_fn, f)"""
+    out = []
+    for v in I.split_value(args[0], OPTION):
+        if v[0] != 'adt':
+            return None
+        r = I.call_closure(w, ci.depth, args[1], []) if v[2] == 0 else I.call_closure(w, ci.depth, args[2], [v[3][0]])
+        if r is None:
+            return None
+        out.extend(r)
+    return out
+
+
+def option_unwrap_or_else(I, w, ci, args):
+    out = []
+    for v in I.split_value(args[0], OPTION):
+        if v[0] != 'adt':
+            return None
+        if v[2] == 1:
+            out.append((w, v[3][0]))
+        else:
+            r = I.call_closure(w, ci.depth, args[1], [])
+            if r is None:
+                return None
+            out.extend(r)
+    return out
+
+
+def option_and_then(I, w, ci, args):
+    out = []
+    for v in I.split_value(args[0], OPTION):
+        if v[0] != 'adt':
+            return None
+        if v[2] == 0:
+            out.append((w, none()))
+        else:
+            r = I.call_closure(w, ci.depth, args[1], [v[3][0]])
+            if r is None:
+                return None
+            out.extend(r)
+    return out
+
+
 def option_or(I, w, ci, args):
     out = []
     for v in I.split_value(args[0], OPTION):
@@ -435,6 +494,10 @@ MODELS = {
     'core::option::Option::as_ref': option_as_mut,
     'core::option::Option::map': option_map,
     'core::option::Option::unwrap_or': option_unwrap_or,
+    'core::option::Option::map_or': option_map_or,
+    'core::option::Option::map_or_else': option_map_or_else,
+    'core::option::Option::unwrap_or_else': option_unwrap_or_else,
+    'core::option::Option::and_then': option_and_then,
     'core::option::Option::or': option_or,
     'core::option::Option::is_some': option_is_some,
     'core::option::Option::is_none': option_is_none,
